@@ -4,7 +4,8 @@
 set -u
 P="$1"; SUF="${2:-}"
 W=/tmp/wt-$P
-[ -n "$SUF" ] && W=/tmp/w2-$P
+[ "$SUF" = "b" ] && W=/tmp/w2-$P
+[ "$SUF" = "c" ] && W=/tmp/w3-$P
 cd "$W" || exit 2
 [ -f SEEDED/patch.diff ] || { echo "no patch.diff"; exit 2; }
 # git stash is shared between worktrees (agents ran concurrently): start from a clean src and apply the recorded patch
